@@ -7,12 +7,45 @@ import (
 	"github.com/xjslang/xjs/sourcemap"
 )
 
+// cleanEmptyLines trims the output and the trailing spaces of every line,
+// except inside backtick strings: their content belongs to the program.
 func cleanEmptyLines(code string) string {
-	lines := strings.Split(strings.TrimSpace(code), "\n")
-	for i, line := range lines {
-		lines[i] = strings.TrimRight(line, " ")
+	code = strings.TrimSpace(code)
+	out := make([]byte, 0, len(code))
+	var in byte // 0: code, '"' or '\'': string, '`': backtick string, '/': line comment
+	for i := 0; i < len(code); i++ {
+		c := code[i]
+		if c == '\n' {
+			if in != '`' {
+				for len(out) > 0 && out[len(out)-1] == ' ' {
+					out = out[:len(out)-1]
+				}
+			}
+			if in == '/' {
+				in = 0
+			}
+			out = append(out, c)
+			continue
+		}
+		out = append(out, c)
+		switch in {
+		case 0:
+			switch {
+			case c == '"' || c == '\'' || c == '`':
+				in = c
+			case c == '/' && i+1 < len(code) && code[i+1] == '/':
+				in = '/'
+			}
+		case '"', '\'', '`':
+			if c == '\\' && i+1 < len(code) && code[i+1] != '\n' {
+				i++
+				out = append(out, code[i])
+			} else if c == in {
+				in = 0
+			}
+		}
 	}
-	return strings.Join(lines, "\n")
+	return string(out)
 }
 
 type CompileResult struct {
